@@ -14,7 +14,9 @@ an error, or `nil, nil`.  The Go harness interprets the same data as a closure.
 
 Go maps are total functions `Name → Option α` here.  `Block` ranges over the map
 `defaultInstances`; its loop body reads and writes the tables only at the key of the current
-iteration, so the (unspecified) iteration order cannot matter and the loop is written point-wise.
+iteration, so the (unspecified) iteration order cannot matter: `block` is written point-wise and
+`blockLoop` is the literal loop over any visiting order (`Props/C10.block_order_irrelevant` proves
+them equal for every order).
 
 Not modelled: `AddInjectors` / the extra `injectors` run at the end of `InjectTo` (they read other
 struct tags and never touch the tables; the harness oracle covers their refusal after first use),
@@ -152,6 +154,27 @@ def block (s : St) : St :=
       factories := fun k => if promotes s k && s.autoclean then none else s.factories k
       defaultInstances := Tab.empty
       blocked := true }
+
+/-- the body of `for key, defaultVal := range d.defaultInstances` in `Block`, for one key -/
+def blockBody (s : St) (key : Name) : St :=
+  match s.defaultInstances key with
+  | none => s
+  | some v =>
+    if (s.factories key).isSome then s
+    else if (s.instances key).isNone then
+      let s1 := if s.autoclean then
+          { s with defaultFactories := s.defaultFactories.del key, factories := s.factories.del key }
+        else s
+      { s1 with instances := s1.instances.set key v }
+    else s
+
+/-- `Block` with its loop spelled out, the range visiting the keys in the order `order`.
+`Props/C10.block_order_irrelevant`: for every order this is `block`. -/
+def blockLoop (s : St) (order : List Name) : St :=
+  if s.blocked then s
+  else
+    let s1 := order.foldl blockBody s
+    { s1 with defaultInstances := Tab.empty, blocked := true }
 
 /-- the field loop of `InjectTo`, over an abstract `Get`: values stored into the fields (one entry per
 field visited, `none` = left untouched) and the error that stopped it -/
